@@ -123,10 +123,90 @@ def property_failures(prog, o):
     return out
 
 
-def run_stream(args, run, stats):
+# ----------------------------------------------------------------------------- extraction re-validation
+VM = []     # VMCASE lines of the chain driver (sampled programs + the extracted model's result as a Coq term)
+VMW = []    # the same for the writer-leg driver
+
+
+def _kv(s):
+    k, v = s.split("=")
+    return "(%d%%N, %d%%N)" % (int(k), int(v))
+
+
+def coq_action(a):
+    c, rest = a[0], a[1:]
+    if c in "NAR!" and not rest:
+        return {"N": "ANext", "A": "AAbort", "R": "AReturn", "!": "APanic"}[c]
+    if c == "H":
+        return "(AWriteHeader %d%%N)" % int(rest)
+    if c == "W":
+        return "(AWrite %s)" % C.coq_nlist(rest.encode("latin-1"))
+    if c in "SP":
+        k, v = rest.split("=")
+        return "(%s %d%%N %d%%N)" % ("ASetH" if c == "S" else "AAddH", int(k), int(v))
+    if c == "X":
+        return "(ADelH %d%%N)" % int(rest)
+    raise ValueError("action " + a)
+
+
+def coq_handler(h):
+    def lst(x, f, sep="."):
+        return C.coq_list([f(y) for y in x.split(sep)] if x else [])
+    if h.startswith("U:"):
+        return "(User %s)" % lst(h[2:], coq_action, ",")
+    if h == "REC":
+        return "Recovery"
+    if h.startswith("HDR:"):
+        return "(Headers %s)" % lst(h[4:], _kv)
+    if h.startswith("OPS:"):
+        d, st, ad = h[4:].split("/")
+        return "(HeaderOps %s %s %s)" % (lst(d, lambda k: "%d%%N" % int(k)), lst(st, _kv), lst(ad, _kv))
+    if h.startswith("ST"):
+        return "(State %d%%N)" % int(h[2:])
+    if h.startswith("WC:"):
+        return "(Wildcard %s)" % C.coq_nlist(h[3:].encode("latin-1"))
+    if h in ("LOG", "MET"):
+        return "Observer"
+    raise ValueError("handler " + h)
+
+
+def vm_terms(vmlines):
+    """Input side printed HERE from the PROG text the harness emitted (independent of ocaml/c15.ml's parser)."""
+    terms, exp, labels = [], [], []
+    for l in vmlines:
+        t = l.split("\t")
+        ps = bytes.fromhex(t[1]).decode("latin-1")
+        f = ps.split(" ")
+        hs = C.coq_list([coq_handler(h) for h in f[3][2:].split("|")])
+        terms.append("let hs := %s in let o := exec (exec_fuel hs) hs %s in (forget o, final_aborted hs o)" % (
+            hs, C.coq_nlist(f[1][2:].encode("latin-1"))))
+        exp.append(t[2])
+        labels.append(ps)
+    return terms, exp, labels
+
+
+def coq_wop(o):
+    f = [int(x) for x in o[1:].split(":")]
+    if o[0] == "H":
+        return "(OWH (%d)%%Z %s)" % (f[0], C.coq_bool(f[1] == 1))
+    return "(OW (%d)%%Z %s (%d)%%Z %s)" % (f[0], C.coq_bool(f[1] == 1), f[2], C.coq_bool(f[3] == 1))
+
+
+def vmw_terms(vmlines):
+    terms, exp, labels = [], [], []
+    for l in vmlines:
+        t = l.split("\t")
+        terms.append("observe init %s" % C.coq_list([coq_wop(o) for o in t[1].split(";") if o]))
+        exp.append(t[2])
+        labels.append("writer ops " + t[1])
+    return terms, exp, labels
+
+
+def run_stream(args, run, stats, stride=0):
     """Pipe the Go harness into the model driver; collect mismatch lines."""
     g = subprocess.Popen([os.path.join(C.BIN, "c15")] + args, stdout=subprocess.PIPE)
-    m = subprocess.Popen([os.path.join(C.BIN, "c15_model")], stdin=g.stdout, stdout=subprocess.PIPE)
+    m = subprocess.Popen([os.path.join(C.BIN, "c15_model")], stdin=g.stdout, stdout=subprocess.PIPE,
+                         env=C.vm_env(run.seed, stride) if stride else None)
     g.stdout.close()
     out = m.communicate()[0].decode("utf-8", "replace")
     g.wait()
@@ -134,6 +214,8 @@ def run_stream(args, run, stats):
     for line in out.splitlines():
         if line.startswith("MISMATCH"):
             mism.append(line)
+        elif line.startswith("VMCASE"):
+            VM.append(line)
         elif line.startswith("SUMMARY"):
             for kv in line.split()[1:]:
                 k, v = kv.split("=")
@@ -206,15 +288,17 @@ def witness_leg(run):
 def writer_leg(run):
     """Wrapper over a scripted underlying writer (model/RWriter.v): differential run + the property evaluated
     on what the scripted writer really received."""
-    n = 400000 if run.tier == "thorough" else 40000
+    n = 400000 if run.tier == "thorough" else run.scaled(40000)
     corpus = os.path.join(C.VERIF, "corpus", "C15", "writer_ops.txt")
     outs = []
     if os.path.exists(corpus):
         outs.append(C.sh([os.path.join(C.BIN, "c15w"), "-file", corpus])[1])
     outs.append(C.sh([os.path.join(C.BIN, "c15w"), "-n", str(n), "-seed", str(run.seed)], timeout=900)[1])
     raw = "".join(outs)
-    p = subprocess.run([os.path.join(C.BIN, "c15w_model")], input=raw.encode(), stdout=subprocess.PIPE)
+    p = subprocess.run([os.path.join(C.BIN, "c15w_model")], input=raw.encode(), stdout=subprocess.PIPE,
+                       env=C.vm_env(run.seed, max(1, n // 150)))
     out = p.stdout.decode("utf-8", "replace")
+    VMW.extend(l for l in out.splitlines() if l.startswith("VMCASE"))
     how = "echo '<ops>' > f; build/bin/c15w -file f | build/bin/c15w_model"
     pf = [l.split("\t") for l in raw.splitlines() if l.startswith("PROPFAIL")]
     pf.sort(key=lambda t: len(t[1]))
@@ -281,12 +365,13 @@ def run(run):
         run.violation("build-ocaml", {"log": log[-3000:]}, "model driver does not build", True)
         return
     stats, mism = {}, []
+    del VM[:], VMW[:]
     witness_leg(run)
     writer_leg(run)
     corpus = os.path.join(C.VERIF, "corpus", "C15", "programs.txt")
     if os.path.exists(corpus):
-        mism += run_stream(["-mode", "corpus", "-file", corpus], run, stats)
-    n_corpus = stats.get("n", 0)
+        mism += run_stream(["-mode", "corpus", "-file", corpus], run, stats, stride=1)
+    n_corpus, n_vm_corpus = stats.get("n", 0), len(VM)
     thorough = run.tier == "thorough"
     shards = C.NPROC if thorough else min(4, C.NPROC)
     jobs = []
@@ -295,7 +380,7 @@ def run(run):
         nrand = 16000000
     else:
         exh = [("medium", 3, 2), ("small", 2, 3)]
-        nrand = 240000
+        nrand = run.scaled(240000)        # anchor drift: escalated budget
     for alpha, hmax, amax in exh:
         for i in range(shards):
             jobs.append(["-mode", "exhaustive", "-alpha", alpha, "-hmax", str(hmax), "-amax", str(amax),
@@ -305,7 +390,8 @@ def run(run):
         jobs.append(["-mode", "random", "-n", str(nrand // shards), "-seed", str(run.seed), "-shard", str(i)])
     exh_stats, rnd_stats = {}, {}
     with cf.ThreadPoolExecutor(max_workers=shards) as ex:
-        futs = [ex.submit(run_stream, a, run, exh_stats if j < n_exh_jobs else rnd_stats) for j, a in enumerate(jobs)]
+        futs = [ex.submit(run_stream, a, run, exh_stats if j < n_exh_jobs else rnd_stats, 1500 if not thorough else 60000)
+                for j, a in enumerate(jobs)]
         for f in futs:
             mism += f.result()
     for d in (exh_stats, rnd_stats):
@@ -321,6 +407,9 @@ def run(run):
                 k += 1
                 if k >= 30:
                     break
+    # extraction re-validation (both drivers): corpus + a deterministic sample, re-evaluated by Coq's VM
+    C.vm_crosscheck(run, "c15", ["Chain"], *vm_terms(VM[:n_vm_corpus] + C.vm_thin(VM[n_vm_corpus:], 250, run.seed)))
+    C.vm_crosscheck(run, "c15w", ["RWriter"], *vmw_terms(C.vm_thin(VMW, 200, run.seed)))
     samples = []
     rc, out = C.sh([os.path.join(C.BIN, "c15"), "-mode", "random", "-n", "5", "-seed", str(run.seed + 7)])
     for l in out.splitlines()[:5]:
